@@ -174,6 +174,7 @@ package interp
 //@   ensures [local:params] complex-of-two-floats-of-one-type: err == nil && name == bltnComplex ==> ptype(params[0]).equals(ptype(params[1])) && isFloat(ptype(params[0]).TypeOf())
 //@   ensures [local:params] real-and-imag-of-a-complex: err == nil && (name == bltnReal || name == bltnImag) ==> isComplex(ptype(params[0]).TypeOf())
 //@   ensures [local:t0] copy-needs-a-slice-destination: err == nil && name == bltnCopy ==> t0 != nil
+//@   ensures [local:params] copy-into-a-slice-from-a-slice-or-a-string: err == nil && name == bltnCopy ==> ptype(params[0]).TypeOf().Kind() == reflect.Slice && (ptype(params[1]).TypeOf().Kind() == reflect.Slice || ptype(params[1]).TypeOf().Kind() == reflect.String)
 //@   ensures make-needs-a-slice-map-or-channel-type: err == nil && name == bltnMake ==> child[0].typ.TypeOf().Kind() == reflect.Slice || child[0].typ.TypeOf().Kind() == reflect.Map || child[0].typ.TypeOf().Kind() == reflect.Chan
 //@   ensures [local:nparams] make-argument-count: err == nil && name == bltnMake ==> nparams >= ite(child[0].typ.TypeOf().Kind() == reflect.Slice, 2, 1) && nparams <= ite(child[0].typ.TypeOf().Kind() == reflect.Slice, 3, 2)
 //@   ensures unknown-builtin-is-an-error: err == nil ==> name == bltnAppend || name == bltnCap || name == bltnLen || name == bltnClose || name == bltnComplex || name == bltnImag || name == bltnReal || name == bltnCopy || name == bltnDelete || name == bltnMake || name == bltnPanic || name == bltnPrint || name == bltnPrintln || name == bltnRecover || name == bltnNew || name == bltnAlignof || name == bltnOffsetof || name == bltnSizeof
